@@ -151,20 +151,39 @@ def _lex_reaction(s, fmt, names, kinds):
     sides = s.split(arrow[1])
     if len(sides) != 2:
         return None
+    def _term(term):
+        """'2 X' / 'X' -> tokens, or None when the text is not a (coefficient and a) known name"""
+        sp = term.split(" ", 1)
+        if len(sp) == 2 and _re.match(r"^\d+(\.\d+)?$", sp[0]) and sp[1] in names:
+            fr = _Fraction(sp[0])
+            return [{"r": "Coef", "n": fr.numerator, "d": fr.denominator}, {"r": "Name", "s": names[sp[1]]}]
+        if term in names:
+            return [{"r": "Name", "s": names[term]}]
+        return None
     for si, side in enumerate(sides):
         terms = side.split(" + ")
+        group = False          # inside the parenthesised group of inactive species: " + ( 2 X + Y)"
         for ti, term in enumerate(terms):
             if ti:
                 out.append({"r": "Plus"})
-            name = term
-            sp = term.split(" ", 1)
-            if len(sp) == 2 and _re.match(r"^\d+(\.\d+)?$", sp[0]) and sp[1] in names:
-                fr = _Fraction(sp[0])
-                out.append({"r": "Coef", "n": fr.numerator, "d": fr.denominator})
-                name = sp[1]
-            if name not in names:
+            close = False
+            if not group and ti and term.startswith("( "):
+                group = True
+                out.append({"r": "Open"})
+                term = term[2:]
+            toks = _term(term)
+            if toks is None and group and term.endswith(")"):
+                toks, close = _term(term[:-1]), True
+            if toks is None:
                 return None
-            out.append({"r": "Name", "s": names[name]})
+            out.extend(toks)
+            if close:
+                out.append({"r": "Close"})
+                group = False
+                if ti != len(terms) - 1:
+                    return None
+        if group:
+            return None
         if si == 0:
             out.append({"r": "Arrow", "k": arrow[0]})
     return out
@@ -185,10 +204,14 @@ def replay_reaction(arg):
         substances = OrderedDict((k, Substance.from_formula(f)) for k, f in zip(keys, pool))
         reac = OrderedDict((keys[s - 1], _coef(c)) for s, c in case["in"]["reac"])
         prod = OrderedDict((keys[s - 1], _coef(c)) for s, c in case["in"]["prod"])
+        inact = {}
+        if case["in"].get("ireac") or case["in"].get("iprod"):
+            inact = {"inact_reac": OrderedDict((keys[s - 1], _coef(c)) for s, c in case["in"].get("ireac") or []),
+                     "inact_prod": OrderedDict((keys[s - 1], _coef(c)) for s, c in case["in"].get("iprod") or [])}
         try:
-            r = cls(reac, prod, checks=())
+            r = cls(reac, prod, checks=(), **inact)
         except TypeError:
-            r = cls(reac, prod)
+            r = cls(reac, prod, **inact)
         for fmt, attr in (("string", None), ("latex", "latex_name"), ("unicode", "unicode_name"), ("html", "html_name")):
             try:
                 if fmt == "string":
@@ -236,24 +259,27 @@ def run(ctx):
             ctx.sample({"slice": sl, "txt": sel[0]["in"]["txt"], "render": sel[0]["exp"]["render"]}, cap=8)
 
     # reactions / equilibria in the four printers
-    res = ctx.tlc("ReactionRender", "ReactionRender_MC_%s.cfg" % ("q" if ctx.quick else "t"),
-                  require_actions=["GenAddReac", "GenArrow", "GenAddProd", "Finish"] if ctx.quick else (),
-                  require_cases=100)
-    sel = ctx.pick(res.cases, 1500 if ctx.quick else 40000)
-    args = []
-    for c in sel:
-        pool = ctx.rng.sample(POOL, 4)
-        args.append((c, pool))
-    outs = ctx.pmap(replay_reaction, args)
-    ctx.cases_replayed += len(sel)
-    for (case, pool), bad in zip(args, outs):
-        ctx.ran({"r": case["in"], "pool": pool})
-        for what, obs, exp in bad:
-            ctx.violation({"fn": what, "reaction": case["in"], "pool": pool},
-                          {"direction": "spec->code", "kind": "reaction", "case": case, "pool": pool,
-                           "observed": obs, "expected": exp})
-    if args:
-        ctx.sample({"reaction": args[0][0]["in"], "pool": args[0][1], "shown": args[0][0]["exp"]["shown"]}, cap=8)
+    # (second configuration: inactive - parenthesised - species on either side, up to two per side)
+    for rcfg, acts, nsel in ((("q" if ctx.quick else "t"), ["GenAddReac", "GenArrow", "GenAddProd", "Finish"], 1500 if ctx.quick else 40000),
+                             ("inact", ["GenAddIReac", "GenAddIProd"], 1500 if ctx.quick else 40000)):
+        res = ctx.tlc("ReactionRender", "ReactionRender_MC_%s.cfg" % rcfg,
+                      require_actions=acts if ctx.quick else (), require_cases=100)
+        sel = ctx.pick(res.cases, nsel)
+        res.cases = None
+        args = []
+        for c in sel:
+            pool = ctx.rng.sample(POOL, 4)
+            args.append((c, pool))
+        outs = ctx.pmap(replay_reaction, args)
+        ctx.cases_replayed += len(sel)
+        for (case, pool), bad in zip(args, outs):
+            ctx.ran({"r": case["in"], "pool": pool})
+            for what, obs, exp in bad:
+                ctx.violation({"fn": what, "reaction": case["in"], "pool": pool},
+                              {"direction": "spec->code", "kind": "reaction", "case": case, "pool": pool,
+                               "observed": obs, "expected": exp, "tlc_cfg": "ReactionRender_MC_%s.cfg" % rcfg})
+        if args:
+            ctx.sample({"reaction": args[0][0]["in"], "pool": args[0][1], "shown": args[0][0]["exp"]["shown"]}, cap=8)
     ctx.exhaustive = not ctx.quick
 
     # code -> spec
